@@ -238,6 +238,13 @@ func (nak *NesterAccountKeeper) SetAccount(account EthAccount) error {
 func (nak *NesterAccountKeeper) RemoveAccount(account EthAccount) {
 	prefixKey := append(nak.prefix, account.Address.Bytes()...)
 	nak.state.Delete(prefixKey)
+	// the coins of the account are kept in the balance store: a removed (self-destructed or
+	// empty) account holds nothing, its funds have already been moved to the beneficiary
+	if currency, ok := nak.currencies.GetCurrencyByName("OLT"); ok {
+		if err := nak.balances.SetBalance(account.Address, currency.NewCoinFromInt(0)); err != nil {
+			nak.logger.Error("failed to clear the balance of removed account", account.Address, err)
+		}
+	}
 }
 
 func (nak *NesterAccountKeeper) GetNonce(addr keys.Address) uint64 {
